@@ -73,7 +73,19 @@ GrantChoices ==
                     [ev |-> Grant(x, y, m.t), tail |-> <<Revoke(x, y, m.t), ExecBy(y, m)>> \o ScriptTail],
                     [ev |-> Grant(x, y, m.t), tail |-> <<ExecBy(NextAcct(y), m), Revoke(y, x, m.t)>> \o ScriptTail] }
                 : i \in 1..11 } : x \in AcctSet }
-Choices == { [ev |-> e, tail |-> ScriptTail] : e \in Alphabet } \cup GrantChoices
+\* the governance account as a party of its own: whitelisted by a signer, it raises an order through a proposal, the
+\* order is accepted and completed (eFUND minted to and locked for the governance account); also with an ordinary purchaser
+GovRaise(amt) == Tx(<< [t |-> "GovProp", proposer |-> "V", msgs |-> << [t |-> "Raise", pur |-> "gov", amt |-> amt, denom |-> "nund"] >>],
+                      [t |-> "Vote", voter |-> "V", id |-> st.aux.nextProp] >>)
+B1 == <<EndEv, ComEv, [a |-> "BeginBlock", dt |-> 1000]>>
+Blocks(n) == IF n = 2 THEN B1 \o B1 ELSE B1 \o B1 \o B1
+GovChoices ==
+  { [ev |-> Tx(<<[t |-> "Whitelist", signer |-> "A1", addr |-> "gov", act |-> "add"]>>),
+     tail |-> <<GovRaise(9)>> \o Blocks(3) \o <<Tx(<<[t |-> "Decide", signer |-> "A1", id |-> 2, d |-> "accept"]>>),
+                                                 Tx(<<[t |-> "Decide", signer |-> "A1", id |-> 1, d |-> "accept"]>>)>> \o Blocks(3) \o <<EndEv, ComEv>>],
+    [ev |-> GovRaise(9),          \* not whitelisted: the proposal fails when it executes
+     tail |-> Blocks(3) \o <<Tx(<<[t |-> "Decide", signer |-> "A1", id |-> 2, d |-> "accept"]>>)>> \o Blocks(2) \o <<EndEv, ComEv>>] }
+Choices == { [ev |-> e, tail |-> ScriptTail] : e \in Alphabet } \cup GrantChoices \cup GovChoices
 Init == /\ st = StateOf(Gen) /\ hist = <<[a |-> "InitChain", g |-> Gen]>> /\ todo = Prefix /\ phase = "prefix" /\ nTx = 0
 Run == /\ todo # <<>>
        /\ st' = Step(st, Head(todo)).st /\ hist' = Append(hist, Head(todo)) /\ todo' = Tail(todo)
